@@ -1,6 +1,7 @@
 package drive
 
 import (
+	"time"
 	"math/rand"
 	"encoding/json"
 	"fmt"
@@ -249,7 +250,12 @@ func streamConc(t *testing.T, o *Out, race bool) {
 	for i := 0; i < n; i++ {
 		if env == nil || race || i%5 == 0 {
 			if env != nil {
-				// release the old environment's file watcher (inotify instances are scarce)
+				// release the old environment's file watcher (inotify instances are scarce). Setting a
+				// configuration value is not a request: it must not run next to goroutines that earlier
+				// requests left behind (they read the configuration without the provider's lock), so wait
+				// until those are gone - the property is about requests, not about the harness's own
+				// reconfiguration
+				quiesce()
 				_ = env.reg.Config(env.ctx).Set(config.KeyNamespaces, []*namespace.Namespace{})
 			}
 			env = newAPIEnv(t, hcheckOPL)
@@ -411,4 +417,18 @@ func streamConc(t *testing.T, o *Out, race bool) {
 		o.Emit("conc", fmt.Sprintf("c%d", i), fmt.Sprintf("%d %d", len(reqs), i), impl, len(reqs) >= 2)
 	}
 	runtime.GOMAXPROCS(runtime.NumCPU())
+}
+
+
+// quiesce waits until the number of goroutines has been stable for 100 ms (at most 5 s).
+func quiesce() {
+	last, stable := runtime.NumGoroutine(), 0
+	for i := 0; i < 500 && stable < 10; i++ {
+		time.Sleep(10 * time.Millisecond)
+		if n := runtime.NumGoroutine(); n == last {
+			stable++
+		} else {
+			last, stable = n, 0
+		}
+	}
 }
